@@ -120,7 +120,16 @@ func (c *ctx) sourceCopy() {
 		}
 		good := len(sls) == 3 && stray == 0
 		msg := fmt.Sprintf("%d slices of the source buffer (want 3: header, between directives, tail)", len(sls)+stray)
-		if len(sls)+stray == 0 {
+		// the buffer handed over to an abstraction (stored in a struct literal: a cursor with copyUpTo / skipTo /
+		// copyRest methods) which does the slicing: what remains here is not the whole walk
+		wrapped := false
+		ast.Inspect(fd.Body, func(n ast.Node) bool {
+			if kv, ok := n.(*ast.KeyValueExpr); ok && astx.IdentObj(info, kv.Value) == bs {
+				wrapped = true
+			}
+			return true
+		})
+		if len(sls)+stray == 0 || (wrapped && len(sls)+stray < 3) {
 			// the buffer is not sliced in this function at all (it is wrapped, e.g. in a cursor with upTo/skipTo/rest
 			// methods): not an idiom this syntactic rule reads. That everything outside the directives is preserved is
 			// decided on every regenerated corpus file by V19 (the output minus the generated code is the source).
@@ -1064,6 +1073,8 @@ func (c *ctx) errorPlumbing() {
 			c.s.OK("G17", key, c.pos(call), "write to an in-memory buffer / the sticky writer whose Err is returned")
 		case (strings.HasPrefix(full, "fmt.Fprint") || full == "io.WriteString") && len(call.Args) > 0 && c.okWriter(fc, call.Args[0], call, 0):
 			c.s.OK("G17", key, c.pos(call), "the destination is, at every call site of this function, an in-memory buffer or the sticky error writer (whose Err is returned)")
+		case c.onlyBufferErrors(fn):
+			c.s.OK("G17", key, c.pos(call), "the callee's error can only come from writes to an in-memory buffer, which cannot fail")
 		case strings.HasPrefix(full, "fmt.Fprint") && fc.pkg.PkgPath == load.Module+"/cmd/cff":
 			c.s.OK("G17", key, c.pos(call), "usage text to the flag set's output")
 		default:
@@ -1325,4 +1336,88 @@ func Run(repo *load.Repo, s *report.Sink) error {
 		}()
 	}
 	return nil
+}
+
+// onlyBufferErrors: fn is a function of the generator packages whose error result is, on every return, nil or a
+// variable bound only to the error of a write into a bytes.Buffer / strings.Builder (which never fails).
+func (c *ctx) onlyBufferErrors(fn *types.Func) bool {
+	if fn == nil {
+		return false
+	}
+	for _, fc := range c.files {
+		info := fc.pkg.TypesInfo
+		d := astx.DeclOfFunc(info, []*ast.File{fc.file}, fn)
+		if d == nil || d.Body == nil {
+			continue
+		}
+		isBufWrite := func(e ast.Expr) bool {
+			call, ok := astx.Unparen(e).(*ast.CallExpr)
+			if !ok {
+				return false
+			}
+			se, ok := call.Fun.(*ast.SelectorExpr)
+			if !ok || !strings.HasPrefix(se.Sel.Name, "Write") {
+				return false
+			}
+			t := info.TypeOf(se.X)
+			if t == nil {
+				return false
+			}
+			switch t.String() {
+			case "*bytes.Buffer", "bytes.Buffer", "*strings.Builder", "strings.Builder":
+				return true
+			}
+			return false
+		}
+		// variables bound to errors: every binding must be a buffer write
+		okVar := map[types.Object]bool{}
+		badVar := map[types.Object]bool{}
+		ast.Inspect(d.Body, func(n ast.Node) bool {
+			as, ok := n.(*ast.AssignStmt)
+			if !ok {
+				return true
+			}
+			for i, l := range as.Lhs {
+				o := astx.IdentObj(info, l)
+				if o == nil || o.Type() == nil || o.Type().String() != "error" {
+					continue
+				}
+				r := as.Rhs[0]
+				if len(as.Rhs) == len(as.Lhs) {
+					r = as.Rhs[i]
+				}
+				if isBufWrite(r) {
+					okVar[o] = true
+				} else {
+					badVar[o] = true
+				}
+			}
+			return true
+		})
+		good, rets := true, 0
+		ast.Inspect(d.Body, func(n ast.Node) bool {
+			if _, ok := n.(*ast.FuncLit); ok {
+				return false
+			}
+			ret, ok := n.(*ast.ReturnStmt)
+			if !ok || len(ret.Results) == 0 {
+				return true
+			}
+			rets++
+			last := ret.Results[len(ret.Results)-1]
+			if astx.IsNil(info, last) {
+				return true
+			}
+			if o := astx.IdentObj(info, last); o != nil && okVar[o] && !badVar[o] {
+				return true
+			}
+			if isBufWrite(last) {
+				return true
+			}
+			good = false
+			return true
+		})
+		return good && rets > 0
+	}
+	return false
 }
